@@ -198,6 +198,35 @@ Section Frames.
       let* (l, b) := drain (S (length (buf ++ c))) (buf ++ c) in
       let* (l', b') := feed b tl in Ok (l ++ l', b')
     end.
+
+  (* Connection::read_frame on a socket that will deliver [reads], one list of octets per read; a read of no octets, like the end of
+     the list, is the peer's close.  What is buffered is looked at before the socket is: a frame with the new buffer and the reads
+     still to come, nothing on a close at a message boundary, an error on a close inside a message *)
+  Fixpoint read_frame (buf : bytes) (reads : list bytes) {struct reads} : res (option (bytes * bytes * list bytes)) :=
+    match parse_frame buf with
+    | Ok (Some (fr, rest)) => Ok (Some (fr, rest, reads))
+    | Ok None =>
+      match reads with
+      | (_ :: _) as c :: tl => read_frame (buf ++ c) tl
+      | _ => match buf with [] => Ok None | _ => Err end
+      end
+    | Err => Err
+    | Panic => Panic
+    end.
+
+  (* the session's read loop: frames until the close or the first error *)
+  Inductive rd_end := RdEof | RdErr | RdPanic | RdFuel.
+  Fixpoint read_all (fuel : nat) (buf : bytes) (reads : list bytes) : list bytes * rd_end :=
+    match fuel with
+    | O => ([], RdFuel)
+    | S f =>
+      match read_frame buf reads with
+      | Ok (Some (fr, rest, reads')) => let (l, e) := read_all f rest reads' in (fr :: l, e)
+      | Ok None => ([], RdEof)
+      | Err => ([], RdErr)
+      | Panic => ([], RdPanic)
+      end
+    end.
 End Frames.
 
 (* read_message (blocking reader): the length field of the 18 header octets read first; a frame of that many octets or an error.
